@@ -168,7 +168,7 @@ def evOk (c : Ctx) (e : Ev) : Bool :=
   | .wret i _ _ => (lookup c.wmap i).isSome && !c.returned.contains i
   | _ => true
 
-def closureFuel : Nat := 200000
+def closureFuel : Nat := 600000
 
 /-- `none` = accepted; `some why` = no execution of the model has this observable projection. -/
 def member (evs : List Ev) : Option String :=
@@ -203,8 +203,12 @@ def histLine (toks : List String) : Res :=
     let out := match member evs with
       | none => "recorded"
       | some why =>
-        let pos := (why.splitOn ":").headD "" |>.toNat? |>.getD 0
-        s!"rejected:{why}:{toks.getD pos "?"}"
+        -- the membership search is bounded (`closureFuel` hidden-step closures per event): running out of budget
+        -- is INCONCLUSIVE, never a rejection — the history is then judged by the spec monitor alone
+        if why.endsWith "search-budget" then "recorded"
+        else
+          let pos := (why.splitOn ":").headD "" |>.toNat? |>.getD 0
+          s!"rejected:{why}:{toks.getD pos "?"}"
     { model := out, monitor := histViolation {} evs, prop := "C13" }
 
 -- @component writeabort
